@@ -19,6 +19,7 @@ import (
 	"crypto/tls"
 	"crypto/x509"
 	"encoding/base64"
+	"encoding/json"
 	"fmt"
 	"io"
 	"math/rand"
@@ -27,12 +28,14 @@ import (
 	"os/exec"
 	"regexp"
 	"runtime"
+	"sort"
 	"strconv"
 	"strings"
 	"sync"
 	"time"
 
 	mail "github.com/wneessen/go-mail"
+	maillog "github.com/wneessen/go-mail/log"
 	"verif/harness/hx"
 	"verif/harness/saslx"
 )
@@ -78,7 +81,8 @@ type server struct {
 	tlsCfg  *tls.Config // non-nil: advertise STARTTLS
 	tlsDone []bool      // per connection: STARTTLS handshake completed
 	tlsErrs []string
-	authOn  bool // advertise and require AUTH
+	raw     []string // every command line received (all connections), for the debug-log oracle
+	authOn  bool     // advertise and require AUTH
 	scram1  saslx.Stored
 	scram2  saslx.Stored
 	seed    int64
@@ -156,6 +160,9 @@ func (s *server) serve(c net.Conn, idx int) {
 			return
 		}
 		line = strings.TrimRight(line, "\r\n")
+		s.mu.Lock()
+		s.raw = append(s.raw, line)
+		s.mu.Unlock()
 		up := strings.ToUpper(line)
 		switch {
 		case strings.HasPrefix(up, "EHLO"), strings.HasPrefix(up, "HELO"):
@@ -437,6 +444,7 @@ type spec struct {
 	jseed  int64
 	mech   string // "" = no SMTP auth; plain login cram scram1 scram256 auto
 	warm   bool   // DialAndSend-only rounds: one sequential DialWithContext+Close before the concurrent calls
+	logm   string // "" = no debug log; s = WithDebugLog + log.New (Stdlog), j = log.NewJSON, d = WithDebugLog only (per-connection default logger on os.Stderr)
 	tls    string // "" = NoTLS; o/m = STARTTLS opportunistic/mandatory with a caller-supplied tls.Config WITHOUT ServerName; O/M = with ServerName and verification
 }
 
@@ -447,7 +455,7 @@ var authTypes = map[string]mail.SMTPAuthType{"plain": mail.SMTPAuthPlain, "login
 func parseSpec(c hx.Case) (spec, error) {
 	var sp spec
 	kp := strings.Split(c.Kind, ":")
-	if kp[0] != "mixed" || len(c.Args) < 4 || (len(kp) != 1 && len(kp) != 3 && len(kp) != 4) {
+	if kp[0] != "mixed" || len(c.Args) < 4 || (len(kp) != 1 && len(kp) != 3 && len(kp) != 4 && len(kp) != 5) {
 		return sp, fmt.Errorf("bad case %q", c.Line())
 	}
 	if len(kp) >= 3 {
@@ -459,11 +467,17 @@ func parseSpec(c hx.Case) (spec, error) {
 			sp.mech = ""
 		}
 	}
-	if len(kp) == 4 {
+	if len(kp) >= 4 && kp[3] != "-" {
 		if !strings.Contains("omOM", kp[3]) || len(kp[3]) != 1 {
 			return sp, fmt.Errorf("unknown tls mode %q", kp[3])
 		}
 		sp.tls = kp[3]
+	}
+	if len(kp) == 5 {
+		if !strings.Contains("sjd", kp[4]) || len(kp[4]) != 1 {
+			return sp, fmt.Errorf("unknown log mode %q", kp[4])
+		}
+		sp.logm = kp[4]
 	}
 	var err error
 	if sp.ns, err = strconv.Atoi(c.Args[0]); err != nil {
@@ -521,6 +535,111 @@ type result struct {
 	order      []int // goroutine ids (0-based): Send goroutines in the order of their MAIL on connection 0, then the DialAndSend ones
 	observable string
 	fails      []failure
+}
+
+// safeSink is the harness' goroutine-safe log destination.
+type safeSink struct {
+	mu sync.Mutex
+	b  bytes.Buffer
+}
+
+func (s *safeSink) Write(p []byte) (int, error) {
+	s.mu.Lock()
+	defer s.mu.Unlock()
+	return s.b.Write(p)
+}
+
+func (s *safeSink) String() string {
+	s.mu.Lock()
+	defer s.mu.Unlock()
+	return s.b.String()
+}
+
+var reStdLine = regexp.MustCompile(`^\d{4}/\d\d/\d\d \d\d:\d\d:\d\d DEBUG: C (-->|<--) S: (.*)$`)
+var reReply = regexp.MustCompile(`^\d{3} `)
+
+// checkLog is the debug-log oracle: every line is one well-formed record (Stdlog: time stamp, level prefix,
+// direction prefix; JSON: one object with level, msg and direction.from/to), server-to-client records start with
+// a reply code, and the multiset of client-to-server payloads equals the multiset of command lines the server
+// received (nothing lost, duplicated, truncated or mixed with another record).
+func checkLog(text, mode string, raw []string) (fails []failure) {
+	var sent []string
+	nReply := 0
+	lines := strings.Split(strings.TrimSuffix(text, "\n"), "\n")
+	contOK := map[string]bool{"8BITMIME": true, "ENHANCEDSTATUSCODES": true, "STARTTLS": true,
+		"AUTH PLAIN LOGIN CRAM-MD5 SCRAM-SHA-1 SCRAM-SHA-256": true}
+	bad := 0
+	for i, l := range lines {
+		if text == "" {
+			break
+		}
+		dir, payload := "", ""
+		if mode == "j" {
+			var rec struct {
+				Level     string  `json:"level"`
+				Msg       *string `json:"msg"`
+				Direction *struct {
+					From string `json:"from"`
+					To   string `json:"to"`
+				} `json:"direction"`
+			}
+			if err := json.Unmarshal([]byte(l), &rec); err != nil || rec.Msg == nil || rec.Direction == nil || rec.Level != "DEBUG" ||
+				!((rec.Direction.From == "client" && rec.Direction.To == "server") || (rec.Direction.From == "server" && rec.Direction.To == "client")) {
+				bad++
+				if bad <= 3 {
+					fails = append(fails, failure{"log-line-malformed", fmt.Sprintf("line %d is not one well-formed JSON record: %.200q", i+1, l)})
+				}
+				continue
+			}
+			dir, payload = map[bool]string{true: "-->", false: "<--"}[rec.Direction.From == "client"], *rec.Msg
+		} else {
+			m := reStdLine.FindStringSubmatch(l)
+			if m == nil {
+				if contOK[l] { // continuation of the multi-line EHLO reply
+					continue
+				}
+				bad++
+				if bad <= 3 {
+					fails = append(fails, failure{"log-line-malformed", fmt.Sprintf("line %d is not one well-formed record: %.200q", i+1, l)})
+				}
+				continue
+			}
+			dir, payload = m[1], m[2]
+		}
+		if dir == "-->" {
+			sent = append(sent, payload)
+		} else {
+			nReply++
+			if !reReply.MatchString(payload) {
+				bad++
+				if bad <= 3 {
+					fails = append(fails, failure{"log-line-malformed", fmt.Sprintf("line %d: server-to-client record without a reply code: %.200q", i+1, l)})
+				}
+			}
+		}
+	}
+	a, b := append([]string(nil), sent...), append([]string(nil), raw...)
+	sort.Strings(a)
+	sort.Strings(b)
+	if strings.Join(a, "\n") != strings.Join(b, "\n") {
+		ex := ""
+		for i := 0; i < len(a) || i < len(b); i++ {
+			if i >= len(a) || i >= len(b) || a[i] != b[i] {
+				if i < len(a) {
+					ex += fmt.Sprintf(" logged %.80q", a[i])
+				}
+				if i < len(b) {
+					ex += fmt.Sprintf(" sent %.80q", b[i])
+				}
+				break
+			}
+		}
+		fails = append(fails, failure{"log-records-mismatch", fmt.Sprintf("%d client-to-server records logged, %d commands received by the server; first difference:%s", len(a), len(b), ex)})
+	}
+	if nReply != len(sent) {
+		fails = append(fails, failure{"log-records-mismatch", fmt.Sprintf("%d server-to-client records for %d client-to-server records", nReply, len(sent))})
+	}
+	return
 }
 
 // tlsSnapshot renders the fields of a tls.Config a client library has no business changing.
@@ -606,6 +725,31 @@ func runRound(sp spec) (res result) {
 	if callerTLS != nil {
 		opts = append(opts, mail.WithTLSConfig(callerTLS))
 	}
+	sink := &safeSink{}
+	var restoreStderr func()
+	switch sp.logm {
+	case "s":
+		opts = append(opts, mail.WithDebugLog(), mail.WithLogger(maillog.New(sink, maillog.LevelDebug)))
+	case "j":
+		opts = append(opts, mail.WithDebugLog(), mail.WithLogger(maillog.NewJSON(sink, maillog.LevelDebug)))
+	case "d": // no explicit logger: every connection creates its own log.New(os.Stderr, ...)
+		opts = append(opts, mail.WithDebugLog())
+		pr, pw, perr := os.Pipe()
+		if perr == nil {
+			old := os.Stderr
+			os.Stderr = pw
+			copied := make(chan struct{})
+			go func() { _, _ = io.Copy(sink, pr); close(copied) }()
+			restoreStderr = func() { os.Stderr = old; _ = pw.Close(); <-copied; _ = pr.Close() }
+		}
+	}
+	if restoreStderr != nil {
+		defer func() {
+			if restoreStderr != nil {
+				restoreStderr()
+			}
+		}()
+	}
 	if sp.mech != "" {
 		opts = append(opts, mail.WithSMTPAuth(authTypes[sp.mech]), mail.WithUsername(authUser), mail.WithPassword(authPass))
 	}
@@ -684,7 +828,19 @@ func runRound(sp spec) (res result) {
 	auths := srv.auths
 	tlsDone := srv.tlsDone
 	tlsErrs := srv.tlsErrs
+	raw := append([]string(nil), srv.raw...)
 	srv.mu.Unlock()
+
+	// ---- debug log: one well-formed record per line, and the client-to-server records are exactly the commands
+	if sp.logm != "" {
+		if restoreStderr != nil {
+			restoreStderr()
+			restoreStderr = nil
+		}
+		for _, f := range checkLog(sink.String(), sp.logm, raw) {
+			fail(f.class, "%s (log mode %s)", f.detail, sp.logm)
+		}
+	}
 
 	// ---- STARTTLS: every connection was upgraded, and the CALLER's tls.Config is what it was before the round
 	if sp.tls != "" {
@@ -914,7 +1070,7 @@ func serialCheck(st []item, sp spec) bool {
 // generation, worker protocol
 
 func genCases(r *hx.Run) []hx.Case {
-	rounds := 80
+	rounds := 88
 	if r.Tier == "thorough" {
 		rounds = 2000
 	}
@@ -930,7 +1086,9 @@ func genCases(r *hx.Run) []hx.Case {
 		{12, 0, "mixed:login:0"}, {12, 0, "mixed:login:1"}, {12, 0, "mixed:scram256:1"}, {16, 0, "mixed:auto:0"},
 		{8, 0, "mixed:plain:0"}, {8, 0, "mixed:cram:1"}, {8, 3, "mixed:login:0"}, {32, 0, "mixed:scram1:0"}, {8, 8, "mixed:scram256:0"},
 		// STARTTLS with a caller-supplied tls.Config shared by all connections of the Client
-		{12, 0, "mixed:none:0:m"}, {12, 0, "mixed:login:0:o"}, {8, 0, "mixed:none:0:M"}, {8, 3, "mixed:plain:0:O"}, {16, 0, "mixed:scram256:1:m"}, {6, 6, "mixed:none:0:o"}}
+		{12, 0, "mixed:none:0:m"}, {12, 0, "mixed:login:0:o"}, {8, 0, "mixed:none:0:M"}, {8, 3, "mixed:plain:0:O"}, {16, 0, "mixed:scram256:1:m"}, {6, 6, "mixed:none:0:o"},
+		// debug logging on: Stdlog / JSON / default logger, two or more connections of one Client active
+		{8, 3, "mixed:none:0:-:s"}, {12, 0, "mixed:none:0:-:s"}, {8, 3, "mixed:none:0:-:j"}, {12, 0, "mixed:none:0:-:j"}, {8, 3, "mixed:none:0:-:d"}, {16, 0, "mixed:none:1:-:s"}}
 	var out []hx.Case
 	for k := 0; k < rounds; k++ {
 		n := sizes[r.Rng.Intn(len(sizes))]
@@ -952,6 +1110,9 @@ func genCases(r *hx.Run) []hx.Case {
 				kind = "mixed:none:" + strconv.Itoa(r.Rng.Intn(2))
 			}
 			kind += ":" + string("omOM"[r.Rng.Intn(4)])
+		}
+		if kind == "mixed" && r.Rng.Intn(4) == 0 { // a quarter of the plain rounds run with the debug log on
+			kind = "mixed:none:0:-:" + string("sjd"[r.Rng.Intn(3)])
 		}
 		if r.Tier == "thorough" && kind != "mixed" {
 			// schedule search on the auth rounds: mostly DialAndSend-only shapes with many goroutines
@@ -1101,6 +1262,9 @@ func Run(r *hx.Run, replay []hx.Case) {
 				r.Dist[fmt.Sprintf("goroutines<=%d", bucket(sp.ns+sp.nd))]++
 				if sp.tls != "" {
 					r.Dist["starttls:"+sp.tls]++
+				}
+				if sp.logm != "" {
+					r.Dist["debuglog:"+sp.logm]++
 				}
 				if sp.mech != "" {
 					r.Dist["auth:"+sp.mech]++
